@@ -596,6 +596,10 @@ def call_lua_sandbox(
                         new_args.append(str(arg))
                     elif isinstance(arg, dict) or lua_type(arg) == "table":
                         new_args.extend(flatten(arg))
+            if ":" in name:
+                # "#tag:ref": the part after the colon is the first argument
+                name, first_arg = name.split(":", 1)
+                new_args.insert(0, first_arg)
             name = ctx._canonicalize_parserfn_name(name)
             if name not in PARSER_FUNCTIONS:
                 ctx.debug(
